@@ -38,6 +38,8 @@ Theorem C02_refuted_zero_size_iterations :
 Proof. exact refuted_zero_size_iterations. Qed.
 
 Print Assumptions C02_no_panic.
+Print Assumptions C02_no_panic_inner.
 Print Assumptions C02_consumed.
+Print Assumptions C02_consumed_inner.
 Print Assumptions C02_seq_iterations.
 Print Assumptions C02_refuted_zero_size_iterations.
